@@ -10,6 +10,7 @@ import (
 	"github.com/Vedant9500/WTF/internal/database"
 	"github.com/Vedant9500/WTF/internal/nlp"
 	"github.com/Vedant9500/WTF/internal/zzvrt/vhost"
+	"github.com/Vedant9500/WTF/internal/zzvrt/vmap"
 	"github.com/Vedant9500/WTF/zzverif/lib"
 )
 
@@ -144,6 +145,9 @@ func c06Search(db *database.Database, cmds []Cmd, cs c06Case) (*lib.Violation, s
 	return nil, obs
 }
 
+// c06MapPoints: map-range points met by the analyses of this worker (reported as a counter)
+var c06MapPoints int64
+
 func c06Analysis(cs c06Case) (*lib.Violation, string) {
 	q, _ := strconv.Unquote(cs.Query)
 	var pq, pq2 *nlp.ProcessedQuery
@@ -162,6 +166,57 @@ func c06Analysis(cs c06Case) (*lib.Violation, string) {
 	if !reflect.DeepEqual(pq, pq2) {
 		return &lib.Violation{Key: "analysis-unstable", What: "analysing the same text twice gives different analyses", Case: cs, Observed: pq, Expected: pq2}, obs
 	}
+	// map-order exploration (E4): the analysis under every forced order (reversed / rotated, one deviating
+	// range point at a time) of each map it ranges over must be the same analysis
+	nPoints := 0
+	vmap.Choose = func(site string, n int) []int {
+		if n > 1 {
+			nPoints++
+		}
+		return nil
+	}
+	func() {
+		defer func() { recover() }()
+		nlp.NewQueryProcessor().ProcessQuery(q).GetEnhancedKeywords()
+	}()
+	vmap.Choose = nil
+	for dev := 0; dev < nPoints && dev < 24; dev++ {
+		for _, mode := range []string{"reverse", "rotate"} {
+			k := 0
+			site := ""
+			vmap.Choose = func(st string, n int) []int {
+				if n <= 1 {
+					return nil
+				}
+				defer func() { k++ }()
+				if k != dev {
+					return nil
+				}
+				site = st
+				p := make([]int, n)
+				for i := range p {
+					if mode == "reverse" {
+						p[i] = n - 1 - i
+					} else {
+						p[i] = (i + 1) % n
+					}
+				}
+				return p
+			}
+			var pq3 *nlp.ProcessedQuery
+			var enh3 []string
+			func() {
+				defer func() { recover() }()
+				pq3 = nlp.NewQueryProcessor().ProcessQuery(q)
+				enh3 = pq3.GetEnhancedKeywords()
+			}()
+			vmap.Choose = nil
+			if pq3 == nil || !reflect.DeepEqual(pq, pq3) || !reflect.DeepEqual(enh, enh3) {
+				return &lib.Violation{Key: "analysis-order-dependent:" + site, What: fmt.Sprintf("the analysis of the text depends on the iteration order of the map ranged at %s (%s order)", site, mode), Case: cs, Observed: pq3, Expected: pq}, obs
+			}
+		}
+	}
+	c06MapPoints += int64(nPoints)
 	if len(enh) < len(pq.Keywords) {
 		return &lib.Violation{Key: "keywords-not-first", What: "the expanded term list is shorter than the keyword list", Case: cs, Observed: enh, Expected: pq.Keywords}, obs
 	}
@@ -203,6 +258,8 @@ func c06Analysis(cs c06Case) (*lib.Violation, string) {
 func c06Run(c *lib.Ctx) {
 	vhost.Set("linux")
 	defer vhost.Set("")
+	c06MapPoints = 0
+	defer func() { c.Count("analysis_map_range_points", c06MapPoints) }()
 	depth := 4
 	if c.Thorough() {
 		depth = 5
@@ -297,7 +354,7 @@ func c06Replay(c *lib.Ctx, raw json.RawMessage) []lib.Violation {
 func init() {
 	lib.Register(&lib.Check{
 		ID: "C06", Level: "model_checking",
-		Rule:      "every query of <=4 (quick) / <=5 (thorough) words over a 17-word NLP-aware alphabet (actions, targets, synonym carriers, stop word, context words ip/manage/windows, the 'without opening' phrase, upper case, punctuation) + 6..13-word families (13 rotations of distinct known words, a 3-word cycle, unknown words with one known word at every position) + 15 specials; each analysed twice (ProcessQuery / GetEnhancedKeywords structure) and searched on 12 databases x all-platforms on/off with NLP off and on at Limit>=N: NLP-off result set must be a subset of NLP-on (<=10 content words), entries matching one of the first four content words must be present (longer). evaluations = searches + analyses; non-trivial = search pairs with a non-empty NLP-off answer",
+		Rule:      "every query of <=4 (quick) / <=5 (thorough) words over a 17-word NLP-aware alphabet (actions, targets, synonym carriers, stop word, context words ip/manage/windows, the 'without opening' phrase, upper case, punctuation) + 6..13-word families (13 rotations of distinct known words, a 3-word cycle, unknown words with one known word at every position) + 15 specials; each analysed twice and again under reversed / rotated iteration order of every map the analysis ranges over, one deviating point at a time (ProcessQuery / GetEnhancedKeywords structure) and searched on 12 databases x all-platforms on/off with NLP off and on at Limit>=N: NLP-off result set must be a subset of NLP-on (<=10 content words), entries matching one of the first four content words must be present (longer). evaluations = searches + analyses; non-trivial = search pairs with a non-empty NLP-off answer",
 		Assume:    []string{"host pinned to linux, map order pinned", "first four content words = the first four tokens of the query after stop-word removal"},
 		QuickSecs: 150, ThorSecs: 1200,
 		Run: c06Run, Replay: c06Replay,
